@@ -178,8 +178,10 @@ func relsSynth(pkg map[string]interface{}, abs bool) []byte {
 				dir := path.Dir(s) + "/"
 				if strings.HasPrefix(tgt, dir) {
 					tgt = strings.TrimPrefix(tgt, dir)
+				} else if path.Dir(path.Dir(s)) == "." {
+					tgt = "../" + tgt // source one folder below the package root
 				} else {
-					tgt = "../" + tgt
+					tgt = "../" + strings.TrimPrefix(tgt, path.Dir(path.Dir(s))+"/") // e.g. word/theme/x -> ../media/y
 				}
 			}
 			fmt.Fprintf(&rl, `<Relationship Id="%s" Type="%s" Target="%s"%s/>`, relsEsc(relsStr(r, "id")), relsTypeURI(relsStr(r, "ty")), relsEsc(tgt), mode)
